@@ -9,7 +9,7 @@ VARIABLE profile
 Default == [group |-> "default", titleWords |-> 5, abstract |-> "text20", keywords |-> <<5>>, coverage |-> TRUE, rights |-> TRUE,
             methods |-> TRUE, project |-> TRUE, source |-> "absent",
             table |-> [present |-> TRUE, desc |-> TRUE, size |-> TRUE, auth |-> TRUE, nrec |-> TRUE, delim |-> TRUE, attrMethods |-> "none"], other |-> "absent",
-            party |-> [el |-> "creator", userId |-> "orcid", email |-> TRUE, given |-> TRUE]]
+            party |-> [el |-> "creator", userId |-> "orcid", email |-> "one", given |-> TRUE]]
 Abstracts == {"absent", "text19", "text20", "text21", "para19", "para20", "split19", "split20", "markdown20", "section-para20", "para-inline-only+para20",
               "para-inline-only", "para-empty", "para-list19", "para-list20"}      \* para-list: part of the words sit in paragraphs of lists nested inside a paragraph
 (* source: a dataSource (an element with the content model of a dataset) nested in the methods of the dataset or of its
@@ -23,7 +23,7 @@ GroupB == {[Default EXCEPT !.group = "entities", !.table = [present |-> tp, desc
              tp \in BOOLEAN, d \in BOOLEAN, s \in BOOLEAN, a \in BOOLEAN, n \in BOOLEAN, dl \in BOOLEAN, o \in {"absent", "with-description", "without-description"}}
 GroupC == {[Default EXCEPT !.group = "party", !.party = [el |-> e, userId |-> u, email |-> m, given |-> g]] :
              e \in {"creator", "contact", "associatedParty", "metadataProvider", "personnel"}, u \in {"none", "other-directory", "orcid", "other+orcid", "orcid+other", "orcid+other+other", "empty-orcid+other"},
-             m \in BOOLEAN, g \in BOOLEAN}
+             m \in {"none", "one", "empty-then-filled", "filled-then-empty", "value-only-then-filled"}, g \in BOOLEAN}      \* several e-mail addresses: ANY filled one counts
 Init == profile \in GroupA \cup GroupB \cup GroupC
 Next == UNCHANGED profile
 Spec == Init /\ [][Next]_profile
